@@ -33,7 +33,7 @@ AInverse(A) ==
 LeafTokens == {"u","v","ux","uy","vx","vy","uxp","vyp","uxx","uxy","c","two","three","half","hpar","hx","gw",
                "f","f2","cD","twoD","gu","gv","gup","gh","g","x","Hu","Hv","A","J","Gg","Ainv","Jinv",
                "u0","u1","w0","w1","divu","divv","uvec","vvec","Gu","Gv",
-               "B", "nrm"}                                                             \* (Dim+1) x Dim input field      \* vector-valued basis functions
+               "B", "nrm", "tiny", "near1"}                                                             \* (Dim+1) x Dim input field      \* vector-valued basis functions
 UnaryTokens == {"neg","sin","cos","exp","log","sqrt","abs","tan","sq","cube","negD","sqD","dx0","dx1","val","gradD",
                 "norm","v0","v1","det","tr","m01","T","inv"}
 IsLeaf(t)  == t \in LeafTokens
